@@ -1,10 +1,10 @@
 \* spec -> impl, exhaustive: every history over 3 NIS values (halves) x 3 dimensions, trimmed
-\* per detector (standard 2 calls, sliding w+2 capped at 5, fading 5), 3 significance levels.
+\* per detector (standard 2 calls, sliding w+2 capped at 5, fading 4), 3 significance levels.
 \* The harness runs it once per kind (it rewrites the Kinds line) to bound the output size.
 SPECIFICATION Spec
 CONSTANTS Kinds = {"standard", "sliding", "fading"} Windows = {1, 2, 3, 4} NAlpha = 3 Bank = TRUE
           NisVals = {0, 5, 17} NisDen = 2 Dims = {1, 2, 3}
-          MaxLen = 5 FadeLen = 5 Trim = TRUE KeepHist = TRUE
+          MaxLen = 5 FadeLen = 4 Trim = TRUE KeepHist = TRUE
 CONSTANT Deltas <- DeltasQuick
 INVARIANT TypeOK
 INVARIANT DetectIffReaches
